@@ -113,7 +113,14 @@ def run(ctx):
                 himpl = himpl + vlib.read_lines(os.path.join(sdir, "impl.txt"))
                 ctx.note("failing-input search: Born statistics on %d circuits whose traces disagree with the model" % len(cands))
     items = []
+    wide_fail, wide_n = [], 0
     for r, a in zip(hreqs, himpl):
+        if r.startswith("wide |"):
+            # wide registers: the only register value of non-zero probability is computed classically by the harness
+            wide_n += 1
+            if a != "same":
+                wide_fail.append({"req": r, "impl": a, "why": "a register value of probability zero occurred on a wide register: " + a[:200], "class": "not-born"})
+            continue
         tag = None
         if r.startswith("w:"):
             tag, r2 = r[2:].split(" ", 1)
@@ -133,7 +140,8 @@ def run(ctx):
     for it, o in zip(md_items, md_out):
         it["modeldist"] = parse_pairs(o, str, vlib.hex_to_float)
     known = {f["id"]: f for f in vlib.load_known(ctx.pid) if f.get("status") == "open"}
-    fails, tested, minp = [], 0, 1.0
+    fails, tested, minp = list(wide_fail), 0, 1.0
+    ctx.coverage["wide_register_circuits"] = wide_n
     theorem_float_checks = 0
     for it in items:
         b = born.get((it["nq"], it["ops"]))
